@@ -109,10 +109,10 @@ Definition event_eqb (withexec : bool) (a b : event) : bool :=
       | KBreaker => true
       | KFnStart | KFnEnd =>
           if withexec then (e_attempts a =? e_attempts b) && (e_retries a =? e_retries b) && (e_hedges a =? e_hedges b) && (e_executions a =? e_executions b)
-                           && outcome_eqb (e_out a) (e_out b)
+                           && outcome_eqb (e_out a) (e_out b) && (e_start a =? e_start b) && (e_astart a =? e_astart b)
           else match e_kind a with KFnEnd => outcome_eqb (e_out a) (e_out b) | _ => true end
       | _ => (e_attempts a =? e_attempts b) && (e_retries a =? e_retries b) && (e_hedges a =? e_hedges b) && (e_executions a =? e_executions b)
-             && outcome_eqb (e_out a) (e_out b)
+             && outcome_eqb (e_out a) (e_out b) && (e_start a =? e_start b) && (e_astart a =? e_astart b)
       end).
 
 Fixpoint all2 {A B} (f : A -> B -> bool) (a : list A) (b : list B) : bool :=
